@@ -7,8 +7,11 @@ From Yv Require Export Common.Base C18.Model C18.Spec.
    function) from every line of the script in every parser state that the
    script's own alias / option commands can produce. *)
 
-(* state index, first line, number of feedable lines taken, result *)
-Definition entry := (nat * nat * nat * pres)%type.
+(* indices of the parser states of the calls made on the same lines (the
+   last is the call the entry describes; more than one: the earlier calls left
+   text pending), byte offset in the script where the lines start, number of
+   feedable lines taken, result *)
+Definition entry := (list nat * nat * nat * pres)%type.
 
 Fixpoint cmd_eqb (a b : cmd) : bool :=
   match a, b with
@@ -16,10 +19,11 @@ Fixpoint cmd_eqb (a b : cmd) : bool :=
   | CStatus n, CStatus m => N.eqb n m
   | CProbe x, CProbe y => list_eqb str_eqb x y
   | CShow x, CShow y => str_eqb x y
-  | CRead r x, CRead s y => Bool.eqb r s && str_eqb x y
+  | CRead r d x, CRead s e y => Bool.eqb r s && N.eqb d e && str_eqb x y
   | CSlurp, CSlurp => true
   | CHere x, CHere y => str_eqb x y
   | CAlias n v, CAlias m w => str_eqb n m && str_eqb v w
+  | CUnalias n, CUnalias m => str_eqb n m
   | CPortable x, CPortable y => Bool.eqb x y
   | CExit x, CExit y => option_eqb N.eqb x y
   | CSeq a1 a2, CSeq b1 b2 => cmd_eqb a1 b1 && cmd_eqb a2 b2
@@ -34,7 +38,7 @@ Fixpoint cmd_eqb (a b : cmd) : bool :=
 Definition pres_eqb (a b : pres) : bool :=
   match a, b with
   | PNeedMore, PNeedMore | PError, PError | PEnd, PEnd | PUnknown, PUnknown => true
-  | PComplete x, PComplete y => cmd_eqb x y
+  | PComplete x p, PComplete y q => cmd_eqb x y && Bool.eqb p q
   | _, _ => false
   end.
 
@@ -51,18 +55,21 @@ Fixpoint strict_prefix (a b : list line) : bool :=
   | _, _ => false
   end.
 
-(* expanded entry: parser state, lines fed, result *)
-Definition xentry := (pstate * list line * pres)%type.
+(* expanded entry: parser states, lines fed, result *)
+Definition xentry := (list pstate * list line * pres)%type.
 
-Definition expand (states : list pstate) (ls : list line) (e : entry) : xentry :=
-  let '(si, start, count, r) := e in
-  (nth si states (mkP [] false), firstn count (skipn start (feedable ls)), r).
+Definition expand (states : list pstate) (script : list N) (e : entry) : xentry :=
+  let '(sis, start, count, r) := e in
+  (map (fun si => nth si states (mkP [] false)) sis,
+   firstn count (feedable (split_lines (skipn start script))), r).
 
-Definition tab_parser (t : list xentry) (st : pstate) (fed : list line) : pres :=
-  match find (fun e : xentry => let '(s, f, _) := e in pstate_eqb st s && lines_eqb fed f) t with
+Definition sts_eqb : list pstate -> list pstate -> bool := list_eqb pstate_eqb.
+
+Definition tab_parser (t : list xentry) (sts : list pstate) (fed : list line) : pres :=
+  match find (fun e : xentry => let '(s, f, _) := e in sts_eqb sts s && lines_eqb fed f) t with
   | Some (_, _, r) => r
   | None =>
-      if existsb (fun e : xentry => let '(s, f, _) := e in pstate_eqb st s && strict_prefix fed f) t
+      if existsb (fun e : xentry => let '(s, f, _) := e in sts_eqb sts s && strict_prefix fed f) t
       then PNeedMore else PUnknown
   end.
 
@@ -76,17 +83,34 @@ Definition marker_last (f : list line) : bool :=
   | _ :: r => forallb (fun l => match l with [] => false | _ => true end) r
   end.
 
+(* an alias whose value contains a newline: the only legitimate reason for
+   text to stay pending in the line buffer after a command line *)
+Definition multiline_alias (st : pstate) : bool :=
+  existsb (fun p => existsb (N.eqb NL) (snd p)) (p_aliases st).
+
 Definition entry_ok (t : list xentry) (e : xentry) : bool :=
   let '(s, f, r) := e in
   marker_last f
   && match r with PNeedMore | PUnknown => false | _ => true end
-  && match f, r with [[]], PComplete _ => false | _, _ => true end
+  && match s, f, r with [_], [[]], PComplete _ _ => false | _, _, _ => true end
+  && match r with
+     | PComplete _ true => existsb multiline_alias s
+     | _ => true
+     end
   && forallb (fun e' : xentry =>
        let '(s', f', r') := e' in
-       negb (pstate_eqb s s') ||
+       negb (sts_eqb s s') ||
        (negb (strict_prefix f f') && (negb (lines_eqb f f') || pres_eqb r r'))) t.
 
 Definition table_ok (t : list xentry) : bool := forallb (entry_ok t) t.
+
+(* no `read -d`: positions are then line boundaries *)
+Definition table_reads_lines (t : list xentry) : bool :=
+  forallb (fun e : xentry => match e with (_, _, PComplete c _) => nl_cmd c | _ => true end) t.
+
+(* bound on how many commands in a row can come out of pending text *)
+Definition table_depth (t : list xentry) : nat :=
+  S (fold_right (fun e : xentry => Nat.max (length (fst (fst e)))) 0%nat t).
 
 (* ------------------------------------------------------------------ *)
 (* Cases.                                                              *)
@@ -122,22 +146,23 @@ Definition ones (n : nat) : list nat := repeat 1%nat n.
 Definition shared (f : feed) : bool :=
   match f with FdFile | FdFifo _ => true | _ => false end.
 
-Definition model_of (parser : pstate -> list line -> pres) (fuel : nat)
+Definition model_of (parser : list pstate -> list line -> pres) (fuel pf : nat)
     (script data : list N) (f : feed) : final :=
   match f with
-  | FdFile => model_run parser fuel SrcStdin [script]
-  | FdFifo sizes => model_run parser fuel SrcStdin (chunk sizes script)
-  | FdString => model_run parser fuel (SrcMem (split_lines script)) [data]
-  | FdScript => model_run parser fuel (SrcOwn [script]) [data]
+  | FdFile => model_run parser fuel pf SrcStdin [script]
+  | FdFifo sizes => model_run parser fuel pf SrcStdin (chunk sizes script)
+  | FdString => model_run parser fuel pf (SrcMem (split_lines script)) [data]
+  | FdScript => model_run parser fuel pf (SrcOwn [script]) [data]
   end.
 
-Definition spec_of (parser : pstate -> list line -> pres) (fuel : nat)
+Definition spec_of (parser : list pstate -> list line -> pres) (fuel pf : nat)
     (script data : list N) (f : feed) : final :=
-  if shared f then spec_run parser fuel LShared (split_lines script)
-  else spec_run parser fuel (LLines (split_lines script)) (split_lines data).
+  if shared f then spec_run parser fuel pf LShared (split_lines script)
+  else spec_run parser fuel pf (LLines (split_lines script)) (split_lines data).
 
+(* bytes, any value but NUL (the script need not be valid UTF-8) *)
 Definition in_domain (x : list N) : bool :=
-  forallb (fun b => N.ltb 0 b && N.ltb b 128) x.
+  forallb (fun b => N.ltb 0 b && N.ltb b 256) x.
 
 Definition modelled_tag (t : ftag) : bool :=
   match t with FEnd | FSyntax | FExit => true | _ => false end.
@@ -157,7 +182,7 @@ Definition rank (v : verdict) : N :=
 Definition worse (a b : verdict) : verdict :=
   if N.ltb (rank a) (rank b) then b else a.
 
-Definition run_one (parser : pstate -> list line -> pres) (fuel : nat)
+Definition run_one (parser : list pstate -> list line -> pres) (fuel pf : nat) (aligned : bool)
     (script data : list N) (ref : option obs) (fo : feed * iout) : verdict :=
   let (f, io) := fo in
   match io with
@@ -165,14 +190,14 @@ Definition run_one (parser : pstate -> list line -> pres) (fuel : nat)
   | IObs o =>
       (* ORACLE, on the implementation's observation only *)
       if shared f && negb (match ref with Some o0 => obs_eqb o0 o | None => true end) then 2%N
-      else if negb (line_aligned (if shared f then script else data) o) then 3%N
+      else if aligned && negb (line_aligned (if shared f then script else data) o) then 3%N
       else
-        let sp := spec_of parser fuel script data f in
+        let sp := spec_of parser fuel pf script data f in
         if negb (modelled_tag (f_tag sp)) then 99%N
         else if negb (obs_eqb (obs_of_final sp) o) then 4%N
         else
           (* MODEL *)
-          if obs_eqb (obs_of_final (model_of parser fuel script data f)) o then 0%N else 1%N
+          if obs_eqb (obs_of_final (model_of parser fuel pf script data f)) o then 0%N else 1%N
   end.
 
 Definition run_case (c : case) : verdict :=
@@ -180,12 +205,14 @@ Definition run_case (c : case) : verdict :=
   let data := c_data c in
   if negb (in_domain script && in_domain data) then 99%N
   else
-    let t := map (expand (c_states c) (split_lines script)) (c_table c) in
+    let t := map (expand (c_states c) script) (c_table c) in
     if negb (table_ok t) then 9%N
     else
       let parser := tab_parser t in
-      let fuel := (length script + length data + 2)%nat in
+      let pf := (length script + length data + 2)%nat in
+      let fuel := (pf * table_depth t + 1)%nat in
       let ref := first_shared (c_runs c) in
-      fold_left (fun v fo => worse v (run_one parser fuel script data ref fo)) (c_runs c) 0%N.
+      fold_left (fun v fo => worse v (run_one parser fuel pf (table_reads_lines t) script data ref fo))
+                (c_runs c) 0%N.
 
 Definition run_cases := run_cases_with run_case.
